@@ -181,7 +181,7 @@ def check(model: Model, run: Run) -> None:
         if not (isinstance(lp, ast.For) and isinstance(lp.target, ast.Tuple) and len(lp.target.elts) == 2):
             continue
         k_, v_ = (dotted(e) for e in lp.target.elts)
-        it = norm(lp.iter)
+        it = rl_.expand(lp.iter)
         if it in ('self._peers.items()', 'list(self._peers.items())'):
             for c in walk_no_nested(lp):
                 if isinstance(c, ast.Call) and amatch('V_p.remove()', c, {'V_p': v_}) is not None:
@@ -256,15 +256,11 @@ def check(model: Model, run: Run) -> None:
         rcalls = model.calls_to(rc.module, rc.node, 'OutgoingRIB.replace_reload')
         if not rcalls:
             run.cannot('Peer.reconfigure: replace_reload() call not found')
+        rcl = Loc(model, rc)
         for c in rcalls:
-            states = []
-            for t, pol in flat_guards(rc.node, c, parent_map(rc.node)):
-                if isinstance(t, ast.Compare) and len(t.ops) == 1 and 'fsm' in norm(t.left) and isinstance(t.ops[0], (ast.Eq, ast.NotEq)):
-                    st_name = (dotted(t.comparators[0]) or '').rsplit('.', 1)[-1]
-                    excluded = isinstance(t.ops[0], ast.NotEq) == pol  # the call runs when fsm is NOT that state
-                    states.append((st_name, excluded))
-            ok9 = states == [('ESTABLISHED', True)]
-            run.check(ok9, rc.qualname, 'the offline branch is taken for every state but ESTABLISHED (%s)' % states, rc.loc(c), 'found %s: (state, True) reads "taken when the FSM is not in that state"' % states)
+            fs = [f_ for f_ in facts(rcl, c) if 'fsm' in f_]
+            ok9 = fs in (['self.fsm != FSM.ESTABLISHED'], ['not self.fsm == FSM.ESTABLISHED'], ['FSM.ESTABLISHED != self.fsm'])
+            run.check(ok9, rc.qualname, 'the offline branch is taken for every state but ESTABLISHED (%s)' % fs, rc.loc(c), 'the FSM facts that hold at the direct replace_reload() are %s; the only one allowed is "not ESTABLISHED"' % fs)
 
     # ------------------------------------------------------------------ R6 what _clear resets, the rollback puts back
     run.rule(
